@@ -13,6 +13,9 @@ pub(crate) struct SymmetricStateData {
     h:       [u8; MAXHASHLEN],
     ck:      [u8; MAXHASHLEN],
     has_key: bool,
+    // Copy of the handshake cipher's key and nonce, so that a checkpoint can put them back.
+    k:       [u8; CIPHERKEYLEN],
+    n:       u64,
 }
 
 impl Default for SymmetricStateData {
@@ -21,6 +24,8 @@ impl Default for SymmetricStateData {
             h:       [0_u8; MAXHASHLEN],
             ck:      [0_u8; MAXHASHLEN],
             has_key: false,
+            k:       [0_u8; CIPHERKEYLEN],
+            n:       0,
         }
     }
 }
@@ -66,6 +71,7 @@ impl SymmetricState {
 
         self.inner.ck = hkdf_output.0;
         self.cipherstate.set(&cipher_key, 0);
+        self.inner.k = cipher_key;
         self.inner.has_key = true;
     }
 
@@ -95,6 +101,7 @@ impl SymmetricState {
         let mut cipher_key = [0_u8; CIPHERKEYLEN];
         cipher_key.copy_from_slice(&hkdf_output.2[..CIPHERKEYLEN]);
         self.cipherstate.set(&cipher_key, 0);
+        self.inner.k = cipher_key;
     }
 
     pub fn has_key(&self) -> bool {
@@ -151,11 +158,15 @@ impl SymmetricState {
     }
 
     pub(crate) fn checkpoint(&mut self) -> SymmetricStateData {
+        self.inner.n = self.cipherstate.nonce();
         self.inner
     }
 
     pub(crate) fn restore(&mut self, checkpoint: SymmetricStateData) {
         self.inner = checkpoint;
+        if checkpoint.has_key {
+            self.cipherstate.set(&checkpoint.k, checkpoint.n);
+        }
     }
 
     pub fn handshake_hash(&self) -> &[u8] {
